@@ -201,8 +201,8 @@ Section Construct.
         if mem (qual m c) (c_namedtuples C) then Ok (PSeq QTuple id m c true items)
         else if pstr_eqb (qual m c) (s "builtins.tuple") then Ok (PSeq QTuple id (s "builtins") (s "tuple") false items)
         else Ok (PSeq QTuple id m c false items)      (* C04-F3 repaired: any other tuple subclass is built as cls(items) *)
-    | KBytes => do b <- read_blob h; Ok (PBytes id false (s "builtins") (s "bytes") (snd b))
-    | KBytearray => do b <- read_blob h; Ok (PBytes id true (s "builtins") (s "bytearray") (snd b))
+    | KBytes => do b <- read_blob h; do (m, c) <- gt h; Ok (PBytes id false m c (snd b))       (* C04-F5 repaired: cls(content) *)
+    | KBytearray => do b <- read_blob h; do (m, c) <- gt h; Ok (PBytes id true m c (snd b))
     | KSlice =>
         match subs with
         | [Leaf _ (LRaw a); Leaf _ (LRaw b); Leaf _ (LRaw c)] =>
